@@ -333,7 +333,12 @@ func checkConfig(r *ev.Run, ks *filesystem.KeyStore, c cfgT, thorough bool) {
 		r.Eval(1)
 	}
 	// ---- owner reads ----------------------------------------------------------------------
-	for _, rd := range reads() {
+	// (owner only: two statements pipelined before one Sync on the unnamed statement and portal, the
+	// first with binary results - each answer is encoded as its own statement asked)
+	pipelined := pgcheck.Mk("ext-pipelined-binary-then-text", "", false, true, []pgproto3.FrontendMessage{
+		&pgproto3.Parse{Query: "select c, id from t"}, &pgproto3.Bind{ResultFormatCodes: []int16{1}}, &pgproto3.Execute{},
+		&pgproto3.Parse{Query: "select id, c from t"}, &pgproto3.Bind{}, &pgproto3.Execute{}, &pgproto3.Sync{}})
+	for _, rd := range append(reads(), pipelined) {
 		res := step(so, prot, rd.Msgs, "owner/"+rd.Kind)
 		want := shadow.Direct(rd.Msgs)
 		r.Eval(1)
